@@ -325,6 +325,80 @@ fn attack(ctx: &Ctx, b: &Bundle) {
     ctx.sample(json!({"proof":b.label,"integer_leaves":ls.len(),"candidate_values":values.len(),"candidate_rhos":rhos.len(),"secrets_tested":b.secrets.iter().map(|s| s.0.clone()).collect::<Vec<_>>(),"openings_found":found.len()}));
 }
 
+/// Dictionary attack through sizes: the recipient holds two candidate values of very different magnitude for a hidden
+/// attribute. If the bit length of some proof field follows the hidden value, the lengths observed over a few proofs
+/// of each candidate fall into disjoint ranges and identify the committed one. Fields whose length ranges for the
+/// two candidates are separated by a clear gap are reported.
+fn size_channel<C: Cs>(ctx: &Ctx, idx: u64) {
+    use std::collections::BTreeMap;
+    use zkryptium::schemes::algorithms::CL03;
+    use zkryptium::schemes::generics::{Commitment, PoKSignature, Signature, ZKPoK};
+    use zkryptium::utils::message::cl03_message::CL03Message;
+    let mut r = ctx.rng("c17s", idx);
+    let n = 3usize;
+    let Some(st) = Setup::<C>::new(ctx, n) else {
+        ctx.inconclusive("C17: key generation panicked (C18's business)");
+        return;
+    };
+    let (bases, cpk) = (st.bases_n(n), st.cpk_n(n));
+    let candidates: Vec<(&str, Integer)> = vec![
+        ("0", Integer::from(0)), ("18", Integer::from(18)), ("2^65", Integer::from(1) << 65u32),
+        ("2^128+1", (Integer::from(1) << 128u32) + 1u32), ("2^lm-1", (Integer::from(1) << C::lm) - 1u32),
+    ];
+    let per = ctx.t(4usize, 12usize);
+    // kind -> field class -> candidate -> (min bits, max bits)
+    let mut seen: BTreeMap<(String, String), BTreeMap<String, (u32, u32)>> = BTreeMap::new();
+    for (cn, cv) in &candidates {
+        for k in 0..per {
+            let u: Vec<usize> = if k % 2 == 0 { vec![1] } else { vec![0, 1] };
+            let mut msgs = attributes::<C>(&mut r, n, 0);
+            msgs[1] = CL03Message::new(cv.clone());
+            let case = format!("{}/size-channel/candidate={}/U={:?}", C::NAME, cn, u);
+            ctx.distinct(&case);
+            let sig = Signature::<CL03<C>>::sign_multiattr(st.pk(), st.sk(), &bases, &msgs);
+            let mut views: Vec<(&str, serde_json::Value)> = vec![];
+            if let Some(p) = ctx.call("PoKSignature::proof_gen", &case, None, || Ok::<_, ()>(PoKSignature::<CL03<C>>::proof_gen(sig.cl03Signature(), &cpk, st.pk(), &bases, &msgs, &u))).value {
+                views.push(("spok", serde_json::to_value(&p).unwrap()));
+            }
+            let com = Commitment::<CL03<C>>::commit_with_pk(&msgs, st.pk(), &bases, Some(&u));
+            if let Some(z) = ctx.call("ZKPoK::generate_proof", &case, None, || Ok::<_, ()>(ZKPoK::<CL03<C>>::generate_proof(&msgs, com.cl03Commitment(), None, st.pk(), &bases, None, &u))).value {
+                views.push(("zkpok", serde_json::to_value(&z).unwrap()));
+            }
+            for (kind, j) in views {
+                for (p, v) in leaves(&j) {
+                    // position 1 is the candidate's: per-attribute arrays are indexed by rank within U
+                    let e = seen.entry((format!("{kind}/U{}", u.len()), p)).or_default().entry(cn.to_string()).or_insert((u32::MAX, 0));
+                    let b = v.significant_bits();
+                    e.0 = e.0.min(b);
+                    e.1 = e.1.max(b);
+                }
+            }
+            ctx.count("size_channel_proofs", 2);
+        }
+    }
+    let mut fields = 0u64;
+    for ((kind, path), by_cand) in &seen {
+        fields += 1;
+        let v: Vec<(&String, &(u32, u32))> = by_cand.iter().collect();
+        for i in 0..v.len() {
+            for k in i + 1..v.len() {
+                let (a, b) = (v[i].1, v[k].1);
+                let gap = if a.1 < b.0 { b.0 - a.1 } else if b.1 < a.0 { a.0 - b.1 } else { 0 };
+                // lengths of honest responses vary by a few bits with the blinding; a gap of 12 bits between two samples
+                // of >= 4 proofs each does not arise from uniformly or fixed-length blinded responses
+                if gap >= 12 {
+                    ctx.violation(
+                        &format!("C17:{}:field-length-identifies-candidate/{}", kind.split('/').next().unwrap(), path_class(path)),
+                        json!({"proof":kind,"field":path,"candidate_a":v[i].0,"bits_a":[a.0,a.1],"candidate_b":v[k].0,"bits_b":[b.0,b.1],"proofs_per_candidate":per}),
+                    );
+                }
+            }
+        }
+    }
+    ctx.count("size_channel_fields_compared", fields);
+    ctx.sample(json!({"workload":"size channel","candidates":candidates.iter().map(|c| c.0).collect::<Vec<_>>(),"proofs_per_candidate":per * 2,"fields_compared":fields}));
+}
+
 fn run<C: Cs>(ctx: &Ctx, idx: u64, nmax: usize) {
     let mut r = ctx.rng("c17", idx);
     let Some(st) = Setup::<C>::new(ctx, nmax) else {
@@ -348,6 +422,9 @@ pub fn scenarios(ctx: &Ctx) -> Vec<Scenario> {
     let nmax = ctx.t(3usize, 4usize);
     for i in 0..ctx.t(1u64, 3u64) {
         v.push(scenario("CL1024", move |c| run::<CL1024Sha256>(c, i, nmax)));
+    }
+    for i in 0..ctx.t(1u64, 3u64) {
+        v.push(scenario("CL1024/size-channel", move |c| size_channel::<CL1024Sha256>(c, 500 + i)));
     }
     // many attributes, hidden positions deep in the vector
     let quick = ctx.quick();
